@@ -41,6 +41,7 @@ type crashStore struct {
 	trace   []byte // store calls of the current sequential operation: G/S returned, g/s failed with the injected error
 	tracing bool
 	wrapNF  bool // a missing key is reported by an error that only wraps ErrKeyNotFound
+	wraps   int
 	closeAt int  // >=0: the database below the wrappers is closed once closeAt store calls of the current operation have completed
 	dsk     *disk
 	w       *world // the store contract oracles (acked / nacked / read) live there
@@ -256,7 +257,18 @@ func (c *crashStore) Get(k kvstore.Key) (kvstore.Value, error) {
 		c.w.readAnswered(k, v, err)
 	}
 	if c.wrapNF && err != nil && ierrors.Is(err, kvstore.ErrKeyNotFound) {
-		err = ierrors.Wrap(err, "sequence key")
+		// one, two or three levels deep, by Wrap / Wrapf / Errorf("%w") / Join with another error
+		c.wraps++
+		switch c.wraps % 4 {
+		case 0:
+			err = ierrors.Wrap(err, "sequence key")
+		case 1:
+			err = ierrors.Wrapf(ierrors.Wrap(err, "sequence key"), "store %d", 1)
+		case 2:
+			err = ierrors.Errorf("get: %w", ierrors.Wrap(err, "sequence key"))
+		default:
+			err = ierrors.Wrap(ierrors.Join(ierrors.New("view"), err), "sequence key")
+		}
 	}
 	c.after()
 
